@@ -641,6 +641,29 @@ where
     (outcome::<T, <T as PurlShape>::Error>(r), canon)
 }
 
+/// The same call sequence with a borrowed copy-on-write type string.
+fn bseq_run_borrowed(ops: &[Value]) -> (Value, Option<String>) {
+    let st: &'static str = Box::leak(from_cps(&ops[0][1]).into_boxed_str());
+    let name = from_cps(&ops[0][2]);
+    let r = catch_unwind(AssertUnwindSafe(|| -> Result<GenericPurl<std::borrow::Cow<'static, str>>, purl::ParseError> {
+        let mut b = GenericPurlBuilder::new(std::borrow::Cow::Borrowed(st), name);
+        for op in &ops[1..] {
+            if op[0] == json!("with_package_type") {
+                let t: &'static str = Box::leak(from_cps(&op[1]).into_boxed_str());
+                b = b.with_package_type(std::borrow::Cow::Borrowed(t));
+            } else {
+                b = replay::apply_op(b, op)?;
+            }
+        }
+        b.build()
+    }));
+    let canon = match &r {
+        Ok(Ok(p)) => display(p),
+        _ => None,
+    };
+    (outcome::<std::borrow::Cow<'static, str>, purl::ParseError>(r), canon)
+}
+
 fn drive_builder_ops(sink: &mut Sink, rng: &mut Rng, n: usize) {
     for i in 0..n {
         let typed = cfg!(feature = "pt") && i % 3 == 0;
@@ -680,6 +703,8 @@ fn drive_builder_ops(sink: &mut Sink, rng: &mut Rng, n: usize) {
             sink.ctx.case = json!({"ops": ops});
             let (o2, _) = bseq_run::<std::borrow::Cow<'static, str>>(&ops);
             sink.ctx.check_eq("C13", "String and Cow build alike", "CowOwned", &o, &o2);
+            let (o2b, _) = bseq_run_borrowed(&ops);
+            sink.ctx.check_eq("C13", "String and Cow::Borrowed build alike", "CowBorrowed", &o, &o2b);
             #[cfg(feature = "ss")]
             {
                 let (o3, _) = bseq_run::<purl::SmallString>(&ops);
@@ -751,6 +776,23 @@ fn drive_big(sink: &mut Sink, rng: &mut Rng, _n: usize) {
             let kind = |r: &Value| if r.get("panic").is_some() { "panic" } else if r["ok"] == json!(true) { "ok" } else { "err" };
             let (g, _) = replay::parse_outcome::<String>(&s);
             sink.emit(json!({"ev": "opaque", "what": what, "inst": "String", "len": s.len(), "kind": kind(&g), "ms": t0.elapsed().as_millis() as u64}));
+            // C16 has no length limit either: a string value deserialises exactly when the string parses
+            #[cfg(feature = "sd")]
+            {
+                sink.ctx.case = json!({"what": what, "len": s.len()});
+                let js = serde_json::to_string(&s).expect("json string");
+                let r = catch_unwind(AssertUnwindSafe(|| serde_json::from_str::<GenericPurl<String>>(&js)));
+                let dk = match &r {
+                    Err(_) => "panic",
+                    Ok(Ok(_)) => "ok",
+                    Ok(Err(_)) => "err",
+                };
+                sink.ctx.check("C16", "deserialize succeeds exactly when parsing succeeds (64 KiB - 1 MiB inputs)", "String", dk == kind(&g), &json!(kind(&g)), &json!(dk));
+                if let Ok(Ok(p)) = r {
+                    let back = serde_json::to_string(&p).ok().and_then(|t| serde_json::from_str::<GenericPurl<String>>(&t).ok());
+                    sink.ctx.check("C16", "JSON round trip (64 KiB - 1 MiB inputs)", "String", back.as_ref() == Some(&p), &Value::Null, &Value::Null);
+                }
+            }
             #[cfg(feature = "pt")]
             {
                 let t0 = std::time::Instant::now();
@@ -874,6 +916,17 @@ fn emit_bseq(sink: &mut Sink, typed: bool, ops: Vec<Value>, refs: &[&str]) {
         }
     } else {
         let (o, c) = bseq_run::<String>(&ops);
+        // C13: the same calls with the other built-in type parameters (a borrowed Cow needs a 'static string: leaked)
+        sink.ctx.case = json!({"ops": ops});
+        let (o2, _) = bseq_run::<std::borrow::Cow<'static, str>>(&ops);
+        sink.ctx.check_eq("C13", "String and Cow::Owned build alike", "CowOwned", &o, &o2);
+        let (o3, _) = bseq_run_borrowed(&ops);
+        sink.ctx.check_eq("C13", "String and Cow::Borrowed build alike", "CowBorrowed", &o, &o3);
+        #[cfg(feature = "ss")]
+        {
+            let (o4, _) = bseq_run::<purl::SmallString>(&ops);
+            sink.ctx.check_eq("C13", "String and SmallString build alike", "SmallString", &o, &o4);
+        }
         (o, c.as_ref().map(|c| replay::parse_outcome::<String>(c).0))
     };
     if typed && !cfg!(feature = "pt") {
@@ -942,9 +995,11 @@ fn drive_escapes(sink: &mut Sink, _rng: &mut Rng, n: usize) {
 
 // The vocabulary of real package URLs: a change that special-cases one well-known key, value, version shape or
 // naming convention of one ecosystem is invisible to generators that draw from small abstract alphabets.
-const V_TYPES: &[&str] = &["generic", "maven", "npm", "golang", "pypi", "nuget", "cargo", "gem", "deb", "docker", "github", "oci", "rpm", "conan", "hex", "swift",
-                           // colloquial names of the seven ecosystems: none of them is a type the typed PURL knows
-                           "rubygems", "go", "pip", "crates.io", "crate", "mvn", "node", "nodejs", "python", "dotnet"];
+const V_TYPES: &[&str] = &["generic", "maven", "npm", "golang", "pypi", "nuget", "cargo", "gem", "deb", "docker", "github", "oci", "rpm", "conan", "hex", "swift"];
+// colloquial names, prefixes and extensions of the seven type names: none of them is a type the typed PURL knows,
+// and for the type-agnostic PURL each is just another type string (for every type parameter alike)
+const V_ALIASES: &[&str] = &["rubygems", "go", "Go", "pip", "crates.io", "crate", "mvn", "maven2", "Maven-Central", "node", "nodejs", "NPMjs", "python", "PyPI.org",
+                             "dotnet", "NU", "nuget.org", "gem-src", "Cargo.toml", "golang.org", "np", "carg0"];
 const V_NS: &[&str] = &["", "org.apache.commons", "@angular", "github.com/go-redis/redis", "library", "debian", "Some.Group", "gopkg.in", "k8s.io/api"];
 const V_NAMES: &[&str] = &["io", "cli", "v8", "v2", "v10", "redis", "Django_.-pkg", "Newtonsoft.Json", "yaml.v3", "commons-io", "curl", "jar", "type",
                            "serde_json", "requests[security]", "BurntSushi", "!burnt!sushi"];
@@ -1007,6 +1062,17 @@ fn drive_vocab(sink: &mut Sink, _rng: &mut Rng, n: usize) {
                 parse_all(sink, &s);
                 let ops = vec![json!(["new", cps(t), cps(name)]), json!(["with_namespace", cps(ns)]), json!(["with_version", cps(ver)])];
                 emit_bseq(sink, typed_of(t), ops, &[ns, name, ver]);
+            }
+        }
+    }
+    // near-names of the seven types, with a few names and versions each
+    for t in V_ALIASES {
+        for name in &V_NAMES[..3] {
+            for ver in &V_VERS[..3] {
+                let s = format!("pkg:{}/{}{}", t, name, if ver.is_empty() { String::new() } else { format!("@{}", ver) });
+                parse_all(sink, &s);
+                let ops = vec![json!(["new", cps(t), cps(name)]), json!(["with_version", cps(ver)])];
+                emit_bseq(sink, false, ops, &[name, ver]);
             }
         }
     }
